@@ -5,6 +5,7 @@
   (Sq/Machine.lean); everything here is a single atomic call.
 -/
 import Sq.Prim
+set_option linter.unusedVariables false
 namespace Sq
 
 def maxArraySize : Nat := 10000          -- MAX_ARRAY_SIZE
@@ -28,7 +29,10 @@ def mutatorNames : List String :=
 
 /-! ### deterministic stand-in for the `random` module (the harness installs the same
     generator in the implementation; DESIGN.md §3.4) -/
-def lcgNext (x : Nat) : Nat := (x * 6364136223846793005 + 1442695040888963407) % 2 ^ 64
+@[irreducible] def lcgNext (x : Nat) : Nat := (x * 6364136223846793005 + 1442695040888963407) % 18446744073709551616
+
+/-- 31 high bits of the 64-bit state -/
+@[irreducible] def lcgHigh (x : Nat) : Nat := x / 8589934592
 def lcgDraw (x : Nat) : Nat := lcgNext x / 2 ^ 33
 
 /-- answer of the regular-expression engine to one call (fed from the implementation) -/
@@ -113,27 +117,58 @@ def isDict (h : Heap) : Val → Bool
 def keyCast (h : Heap) (container key : Val) : R Val :=
   if isDict h container then dictKeyCast h key else .ok (listKeyCast key)
 
-def dictFind (h : Heap) (kvs : List (Val × Val)) (k : Val) : R (Option Val) :=
-  match dictFindAux (eqFuel h) h kvs k with
-  | some r => .ok r
-  | none => U "dict-eq"
+/-- is this dict key the string `n`?  (a `str` key equals only an equal `str`) -/
+def keyIsName : Val → Name → Bool
+  | .str s, n => s == n
+  | _, _ => false
 
-/-- replace the value under an equal key or append a new entry (insertion order kept) -/
-def dictSet (h : Heap) : List (Val × Val) → Val → Val → R (List (Val × Val))
+/-- bind a string key: replace the value in place or append (insertion order kept) -/
+def kvSet : List (Val × Val) → Name → Val → List (Val × Val)
+  | [], n, v => [(.str n, v)]
+  | (k, v') :: r, n, v => if keyIsName k n then (k, v) :: r else (k, v') :: kvSet r n v
+
+/-- remove the entry under a string key (a dict holds at most one) -/
+def kvErase : List (Val × Val) → Name → List (Val × Val)
+  | [], _ => []
+  | (k, v) :: r, n => if keyIsName k n then r else (k, v) :: kvErase r n
+
+/-- dict lookup.  Every key the language itself produces is a `str` (`_dict_key_cast`): those are
+    compared structurally; other keys (only reachable through `remove` / `in` on host dicts)
+    go through Python `==`. -/
+def dictFind (h : Heap) (kvs : List (Val × Val)) (k : Val) : R (Option Val) :=
+  match k with
+  | .str ks => .ok ((kvs.find? (fun kv => keyIsName kv.1 ks)).map (·.2))
+  | _ =>
+    match dictFindAux (eqFuel h + kvs.length) h kvs k with
+    | some r => .ok r
+    | none => U "dict-eq"
+
+def dictSetAux (h : Heap) : List (Val × Val) → Val → Val → R (List (Val × Val))
   | [], k, v => .ok [(k, v)]
   | (k', v') :: r, k, v =>
     match pyEq' h k' k with
     | .error e => .error e
     | .ok true => .ok ((k', v) :: r)
-    | .ok false => (dictSet h r k v).map ((k', v') :: ·)
+    | .ok false => (dictSetAux h r k v).map ((k', v') :: ·)
 
-def dictErase (h : Heap) : List (Val × Val) → Val → R (List (Val × Val))
+/-- replace the value under an equal key or append a new entry (insertion order kept) -/
+def dictSet (h : Heap) (kvs : List (Val × Val)) (k v : Val) : R (List (Val × Val)) :=
+  match k with
+  | .str ks => .ok (kvSet kvs ks v)
+  | _ => dictSetAux h kvs k v
+
+def dictEraseAux (h : Heap) : List (Val × Val) → Val → R (List (Val × Val))
   | [], _ => .ok []
   | (k', v') :: r, k =>
     match pyEq' h k' k with
     | .error e => .error e
     | .ok true => .ok r
-    | .ok false => (dictErase h r k).map ((k', v') :: ·)
+    | .ok false => (dictEraseAux h r k).map ((k', v') :: ·)
+
+def dictErase (h : Heap) (kvs : List (Val × Val)) (k : Val) : R (List (Val × Val)) :=
+  match k with
+  | .str ks => .ok (kvErase kvs ks)
+  | _ => dictEraseAux h kvs k
 
 def listContains (h : Heap) : List Val → Val → R Bool
   | [], _ => .ok false
@@ -473,20 +508,22 @@ def parseFlags : Val → R Nat
     | .opaque _ => U "flags-opaque"
     | _ => .error .attributeError
 
+/-- the engine request for subject `s`, pattern `p`, flags value `fl` -/
+def rxGo (name : String) (s p fl : Val) : R RxReq :=
+  match parseFlags fl with
+  | .error e => .error e
+  | .ok flags =>
+    match p, s with
+    | .str pat, .str sub =>
+      .ok { fn := if name == "match_all" then "findall" else "search",
+            pattern := pat, subject := sub, flags := flags, timeout := some regexTimeoutMicros }
+    | _, _ => U "rx-args"      -- the engine decides (compile error vs type error)
+
 /-- the engine call a regex builtin makes, if it gets as far as calling the engine -/
 def rxRequest (name : String) (args : List Val) : R RxReq :=
-  let go (s p : Val) (fl : Val) : R RxReq :=
-    match parseFlags fl with
-    | .error e => .error e
-    | .ok flags =>
-      match p, s with
-      | .str pat, .str sub =>
-        .ok { fn := if name == "match_all" then "findall" else "search",
-              pattern := pat, subject := sub, flags := flags, timeout := some regexTimeoutMicros }
-      | _, _ => U "rx-args"      -- the engine decides (compile error vs type error)
   match args with
-  | [s, p] => go s p .none
-  | [s, p, fl] => go s p fl
+  | [s, p] => rxGo name s p .none
+  | [s, p, fl] => rxGo name s p fl
   | _ => .error .typeError
 
 def bRegex (name : String) (args : List Val) (s : BState) : BR :=
@@ -567,18 +604,35 @@ def intArg (v : Val) : R Int := pyInt v
 def isTypeObject : Val → Bool
   | .builtin "str" => true | .builtin "dict" => true | _ => false
 
-def callPure (name : String) (args : List Val) (s : BState) : BR :=
-  let h := s.heap
-  if name != "list" && args.any isTypeObject then U "type-object-arg" else
-  match name, args with
-  | "len", [v] => (pyLen h v).map (fun n => (.int n, s))
-  | "len", _ => .error .typeError
-  | "int", [v] =>
+/-- builtins that only store / compare / count their non-first arguments: a type object there is
+    handled like any other value -/
+def storesArgs : List String :=
+  ["list", "push", "insert", "__setitem__", "__setitem_with_op__", "remove", "index_of", "get"]
+
+def typeObjectGuard (name : String) (args : List Val) : Bool :=
+  if name == "list" then false
+  else if storesArgs.contains name then (args.head?.map isTypeObject).getD false
+  else args.any isTypeObject
+
+/-- FUNCTIONS['len'] -/
+def b_len (args : List Val) (s : BState) : BR :=
+  match args with
+  | [v] => (pyLen s.heap v).map (fun n => (.int n, s))
+  | _ => .error .typeError
+
+/-- FUNCTIONS['int'] -/
+def b_int (args : List Val) (s : BState) : BR :=
+  match args with
+  | [v] =>
     (match v with
      | .dec d _ => if intStrTooLong d then U "int-huge" else ret (.dec (Dec.ofInt d.toInt) true) s
      | _ => (pyInt v).map (fun i => (.dec (Dec.ofInt i) true, s)))
-  | "int", _ => .error .typeError
-  | "float", [v] =>
+  | _ => .error .typeError
+
+/-- FUNCTIONS['float'] -/
+def b_float (args : List Val) (s : BState) : BR :=
+  match args with
+  | [v] =>
     (match v with
      | .str _ => U "float(str)"
      | .opaque _ => U "float-opaque"
@@ -587,47 +641,83 @@ def callPure (name : String) (args : List Val) (s : BState) : BR :=
          if d.isIntegral ∧ d.toInt.natAbs < 2 ^ 53 then ret (.dec (Dec.ofInt d.toInt) true) s
          else U "float"
        | none => .error .typeError)
-  | "float", _ => .error .typeError
-  | "str", [] => ret (.str []) s
-  | "str", [v] => (pyStr h v).map (fun t => (.str t, s))
-  | "str", _ => .error .typeError
-  | "dict", [] => .ok (allocDict s [])
-  | "dict", [.ref a] =>
-    (match h.get? a with
+  | _ => .error .typeError
+
+/-- FUNCTIONS['str'] -/
+def b_str (args : List Val) (s : BState) : BR :=
+  match args with
+  | [] => ret (.str []) s
+  | [v] => (pyStr s.heap v).map (fun t => (.str t, s))
+  | _ => .error .typeError
+
+/-- FUNCTIONS['dict'] -/
+def b_dict (args : List Val) (s : BState) : BR :=
+  match args with
+  | [] => .ok (allocDict s [])
+  | [.ref a] =>
+    (match s.heap.get? a with
      | some (.dict kvs) => .ok (allocDict s kvs)
      | _ => U "dict(list)")
-  | "dict", _ => U "dict(args)"
-  | "list", vs => .ok (allocList s vs)
-  | "startswith", [.str a, .str b] => ret (.bool (Str.startsWith a b)) s
-  | "startswith", [.str _, .tuple _] => U "startswith-tuple"
-  | "startswith", [.str _, .opaque _] => U "startswith-opaque"
-  | "startswith", [.opaque _, _] => U "startswith-opaque"
-  | "startswith", [_, _] => .error .typeError
-  | "startswith", [] => .error .typeError
-  | "startswith", [_] => .error .typeError
-  | "startswith", _ => U "startswith-range"
-  | "endswith", [.str a, .str b] => ret (.bool (Str.endsWith a b)) s
-  | "endswith", [.str _, .tuple _] => U "endswith-tuple"
-  | "endswith", [.str _, .opaque _] => U "endswith-opaque"
-  | "endswith", [.opaque _, _] => U "endswith-opaque"
-  | "endswith", [_, _] => .error .typeError
-  | "endswith", [] => .error .typeError
-  | "endswith", [_] => .error .typeError
-  | "endswith", _ => U "endswith-range"
-  | "lower", [.str a] => if Str.allKnown a then ret (.str (Str.lower a)) s else U "lower-chars"
-  | "lower", [.opaque _] => U "lower-opaque"
-  | "lower", _ => .error .typeError
-  | "upper", [.str a] => if Str.allKnown a then ret (.str (Str.upper a)) s else U "upper-chars"
-  | "upper", [.opaque _] => U "upper-opaque"
-  | "upper", _ => .error .typeError
-  | "strip", [.str a] => if Str.allKnown a then ret (.str (Str.strip a)) s else U "strip-chars"
-  | "strip", [.str a, .none] => if Str.allKnown a then ret (.str (Str.strip a)) s else U "strip-chars"
-  | "strip", [.str a, .str cs] => ret (.str (Str.stripBy (fun c => cs.contains c) a)) s
-  | "strip", [.opaque _] => U "strip-opaque"
-  | "strip", [.opaque _, _] => U "strip-opaque"
-  | "strip", [.str _, .opaque _] => U "strip-opaque"
-  | "strip", _ => .error .typeError
-  | "replace", sv :: old :: new :: rest =>
+  | _ => U "dict(args)"
+
+/-- FUNCTIONS['list'] -/
+def b_list (args : List Val) (s : BState) : BR :=
+  match args with
+  | vs => .ok (allocList s vs)
+
+/-- FUNCTIONS['startswith'] -/
+def b_startswith (args : List Val) (s : BState) : BR :=
+  match args with
+  | [.str a, .str b] => ret (.bool (Str.startsWith a b)) s
+  | [.str _, .tuple _] => U "startswith-tuple"
+  | [.str _, .opaque _] => U "startswith-opaque"
+  | [.opaque _, _] => U "startswith-opaque"
+  | [_, _] => .error .typeError
+  | [] => .error .typeError
+  | [_] => .error .typeError
+  | _ => U "startswith-range"
+
+/-- FUNCTIONS['endswith'] -/
+def b_endswith (args : List Val) (s : BState) : BR :=
+  match args with
+  | [.str a, .str b] => ret (.bool (Str.endsWith a b)) s
+  | [.str _, .tuple _] => U "endswith-tuple"
+  | [.str _, .opaque _] => U "endswith-opaque"
+  | [.opaque _, _] => U "endswith-opaque"
+  | [_, _] => .error .typeError
+  | [] => .error .typeError
+  | [_] => .error .typeError
+  | _ => U "endswith-range"
+
+/-- FUNCTIONS['lower'] -/
+def b_lower (args : List Val) (s : BState) : BR :=
+  match args with
+  | [.str a] => if Str.allKnown a then ret (.str (Str.lower a)) s else U "lower-chars"
+  | [.opaque _] => U "lower-opaque"
+  | _ => .error .typeError
+
+/-- FUNCTIONS['upper'] -/
+def b_upper (args : List Val) (s : BState) : BR :=
+  match args with
+  | [.str a] => if Str.allKnown a then ret (.str (Str.upper a)) s else U "upper-chars"
+  | [.opaque _] => U "upper-opaque"
+  | _ => .error .typeError
+
+/-- FUNCTIONS['strip'] -/
+def b_strip (args : List Val) (s : BState) : BR :=
+  match args with
+  | [.str a] => if Str.allKnown a then ret (.str (Str.strip a)) s else U "strip-chars"
+  | [.str a, .none] => if Str.allKnown a then ret (.str (Str.strip a)) s else U "strip-chars"
+  | [.str a, .str cs] => ret (.str (Str.stripBy (fun c => cs.contains c) a)) s
+  | [.opaque _] => U "strip-opaque"
+  | [.opaque _, _] => U "strip-opaque"
+  | [.str _, .opaque _] => U "strip-opaque"
+  | _ => .error .typeError
+
+/-- FUNCTIONS['replace'] -/
+def b_replace (args : List Val) (s : BState) : BR :=
+  match args with
+  | sv :: old :: new :: rest =>
     (match sv with
      | .str a =>
        (match rest with
@@ -644,11 +734,24 @@ def callPure (name : String) (args : List Val) (s : BState) : BR :=
         | _ => .error .typeError)
      | .opaque _ => U "replace-opaque"
      | _ => if rest.length ≤ 1 then .error .attributeError else .error .typeError)
-  | "replace", _ => .error .typeError
-  | "match", _ => bRegex name args s
-  | "match_groups", _ => bRegex name args s
-  | "match_all", _ => bRegex name args s
-  | "pretty", v :: rest =>
+  | _ => .error .typeError
+
+/-- FUNCTIONS['match'] -/
+def b_match (args : List Val) (s : BState) : BR :=
+  bRegex "match" args s
+
+/-- FUNCTIONS['match_groups'] -/
+def b_match_groups (args : List Val) (s : BState) : BR :=
+  bRegex "match_groups" args s
+
+/-- FUNCTIONS['match_all'] -/
+def b_match_all (args : List Val) (s : BState) : BR :=
+  bRegex "match_all" args s
+
+/-- FUNCTIONS['pretty'] -/
+def b_pretty (args : List Val) (s : BState) : BR :=
+  match args with
+  | v :: rest =>
     if rest.length > 1 then .error .typeError else
     let sepOf (dflt : String) : R (List Char) := match rest with
       | [] => .ok dflt.toList
@@ -656,10 +759,10 @@ def callPure (name : String) (args : List Val) (s : BState) : BR :=
       | [.opaque _] => U "pretty-opaque"
       | _ => .error .attributeError
     (match v with
-     | .ref a => match h.get? a with
+     | .ref a => match s.heap.get? a with
        | some (.dict kvs) =>
          (match sepOf "\n", mapR (fun (kv : Val × Val) =>
-                  match pyStr h kv.1, pyStr h kv.2 with
+                  match pyStr s.heap kv.1, pyStr s.heap kv.2 with
                   | .ok a, .ok b => .ok (a ++ ": ".toList ++ b)
                   | .error e, _ => .error e
                   | _, .error e => .error e) kvs with
@@ -667,7 +770,7 @@ def callPure (name : String) (args : List Val) (s : BState) : BR :=
           | .error e, _ => .error e
           | _, .error e => .error e)
        | some (.list xs) =>
-         (match sepOf ", ", mapR (pyStr h) xs with
+         (match sepOf ", ", mapR (pyStr s.heap) xs with
           | .ok sp, .ok parts => ret (.str (Str.join sp parts)) s
           | .error e, _ => .error e
           | _, .error e => .error e)
@@ -678,62 +781,102 @@ def callPure (name : String) (args : List Val) (s : BState) : BR :=
        (match sepOf " " with
         | .ok sp => ret (.str (prettyDec txt sp)) s
         | .error e => if (match txt with | '-' :: r => r.length | r => r.length) < 5 then ret (.str txt) s else .error e)
-     | v => (pyStr h v).map (fun t => (.str t, s)))
-  | "pretty", [] => .error .typeError
-  | "keys", [.ref a] => (match h.get? a with
+     | v => (pyStr s.heap v).map (fun t => (.str t, s)))
+  | [] => .error .typeError
+
+/-- FUNCTIONS['keys'] -/
+def b_keys (args : List Val) (s : BState) : BR :=
+  match args with
+  | [.ref a] => (match s.heap.get? a with
     | some (.dict kvs) => .ok (allocList s (kvs.map (·.1)))
     | _ => .error .attributeError)
-  | "keys", [.opaque _] => U "keys-opaque"
-  | "keys", [_] => .error .attributeError
-  | "keys", _ => .error .typeError
-  | "values", [.ref a] => (match h.get? a with
+  | [.opaque _] => U "keys-opaque"
+  | [_] => .error .attributeError
+  | _ => .error .typeError
+
+/-- FUNCTIONS['values'] -/
+def b_values (args : List Val) (s : BState) : BR :=
+  match args with
+  | [.ref a] => (match s.heap.get? a with
     | some (.dict kvs) => .ok (allocList s (kvs.map (·.2)))
     | _ => .error .attributeError)
-  | "values", [.opaque _] => U "values-opaque"
-  | "values", [_] => .error .attributeError
-  | "values", _ => .error .typeError
-  | "items", [.ref a] => (match h.get? a with
+  | [.opaque _] => U "values-opaque"
+  | [_] => .error .attributeError
+  | _ => .error .typeError
+
+/-- FUNCTIONS['items'] -/
+def b_items (args : List Val) (s : BState) : BR :=
+  match args with
+  | [.ref a] => (match s.heap.get? a with
     | some (.dict kvs) => .ok (allocList s (kvs.map (fun kv => .tuple [kv.1, kv.2])))
     | _ => .error .attributeError)
-  | "items", [.opaque _] => U "items-opaque"
-  | "items", [_] => .error .attributeError
-  | "items", _ => .error .typeError
-  | "sum", [.ref a] => (match h.get? a with
+  | [.opaque _] => U "items-opaque"
+  | [_] => .error .attributeError
+  | _ => .error .typeError
+
+/-- FUNCTIONS['sum'] -/
+def b_sum (args : List Val) (s : BState) : BR :=
+  match args with
+  | [.ref a] => (match s.heap.get? a with
     | some (.list xs) =>
       -- sum(list): 0 + x₁ + x₂ + …
-      let r := xs.foldlM (fun (acc : Val × Heap) x => pyAdd acc.2 acc.1 x) (Val.int 0, h)
+      let r := xs.foldlM (fun (acc : Val × Heap) x => pyAdd acc.2 acc.1 x) (Val.int 0, s.heap)
       (match r with
        | .ok (v, h') => ret v { s with heap := h' }
        | .error e => .error e)
     | _ => ret (.ref a) s)
-  | "sum", [v] => ret v s
-  | "sum", _ => .error .typeError
-  | "get", c :: k :: rest =>
+  | [v] => ret v s
+  | _ => .error .typeError
+
+/-- FUNCTIONS['get'] -/
+def b_get (args : List Val) (s : BState) : BR :=
+  match args with
+  | c :: k :: rest =>
     if rest.length > 1 then .error .typeError else
-    (match keyCast h c k with
+    (match keyCast s.heap c k with
      | .error e => .error e
      | .ok k' =>
        match c with
-       | .ref a => match h.get? a with
+       | .ref a => match s.heap.get? a with
          | some (.dict kvs) =>
            if ¬ isHashable k' then .error .typeError else
-           (match dictFind h kvs k' with
+           (match dictFind s.heap kvs k' with
             | .error e => .error e
             | .ok (some v) => ret v s
             | .ok none => ret (rest.headD .none) s)
          | _ => .error .attributeError
        | .opaque _ => U "get-opaque"
        | _ => .error .attributeError)
-  | "get", _ => .error .typeError
-  | "__getitem__", [c, k] => bGetItem s c k
-  | "__getitem__", _ => .error .typeError
-  | "__delitem__", [c, k] => bDelItem s c k
-  | "__delitem__", _ => .error .typeError
-  | "__setitem__", [c, k, v] => bSetItem s c k v
-  | "__setitem__", _ => .error .typeError
-  | "__setitem_with_op__", [c, k, o, v] => bSetItemWithOp s c k o v
-  | "__setitem_with_op__", _ => .error .typeError
-  | "join", c :: rest =>
+  | _ => .error .typeError
+
+/-- FUNCTIONS['__getitem__'] -/
+def b_getitem (args : List Val) (s : BState) : BR :=
+  match args with
+  | [c, k] => bGetItem s c k
+  | _ => .error .typeError
+
+/-- FUNCTIONS['__delitem__'] -/
+def b_delitem (args : List Val) (s : BState) : BR :=
+  match args with
+  | [c, k] => bDelItem s c k
+  | _ => .error .typeError
+
+/-- FUNCTIONS['__setitem__'] -/
+def b_setitem (args : List Val) (s : BState) : BR :=
+  match args with
+  | [c, k, v] => bSetItem s c k v
+  | _ => .error .typeError
+
+/-- FUNCTIONS['__setitem_with_op__'] -/
+def b_setitem_with_op (args : List Val) (s : BState) : BR :=
+  match args with
+  | [c, k, o, v] => bSetItemWithOp s c k o v
+  | _ => .error .typeError
+
+/-- FUNCTIONS['join'] -/
+def b_join (args : List Val) (s : BState) : BR :=
+  match args with
+  | c :: rest =>
     if rest.length > 1 then .error .typeError else
     -- `sep.join(map(str, container))`: the attribute `sep.join` is looked up first
     let sepR : R (List Char) := match rest with
@@ -744,14 +887,18 @@ def callPure (name : String) (args : List Val) (s : BState) : BR :=
     (match sepR with
      | .error e => .error e
      | .ok sp =>
-       match iterItems h c with
+       match iterItems s.heap c with
        | .error e => .error e
        | .ok items =>
-         match mapR (pyStr h) items with
+         match mapR (pyStr s.heap) items with
          | .error e => .error e
          | .ok parts => ret (.str (Str.join sp parts)) s)
-  | "join", [] => .error .typeError
-  | "split", sv :: rest =>
+  | [] => .error .typeError
+
+/-- FUNCTIONS['split'] -/
+def b_split (args : List Val) (s : BState) : BR :=
+  match args with
+  | sv :: rest =>
     if rest.length > 2 then .error .typeError else
     (match sv with
      | .str a =>
@@ -769,69 +916,113 @@ def callPure (name : String) (args : List Val) (s : BState) : BR :=
           | _ => .error .typeError)
      | .opaque _ => U "split-opaque"
      | _ => .error .attributeError)
-  | "split", [] => .error .typeError
-  | "round", _ => (bRound args).map (·, s)
-  | "floor", _ => (bFloorCeil .floor args).map (·, s)
-  | "ceil", _ => (bFloorCeil .ceiling args).map (·, s)
-  | "abs", [.dec d _] => (match Dec.abs' d with
+  | [] => .error .typeError
+
+/-- FUNCTIONS['round'] -/
+def b_round (args : List Val) (s : BState) : BR :=
+  match args with
+  | _ => (bRound args).map (·, s)
+
+/-- FUNCTIONS['floor'] -/
+def b_floor (args : List Val) (s : BState) : BR :=
+  match args with
+  | _ => (bFloorCeil .floor args).map (·, s)
+
+/-- FUNCTIONS['ceil'] -/
+def b_ceil (args : List Val) (s : BState) : BR :=
+  match args with
+  | _ => (bFloorCeil .ceiling args).map (·, s)
+
+/-- FUNCTIONS['abs'] -/
+def b_abs (args : List Val) (s : BState) : BR :=
+  match args with
+  | [.dec d _] => (match Dec.abs' d with
     | .ok r => ret (.dec r true) s
     | .error sg => .error (.decimal sg))
-  | "abs", [.opaque _] => U "abs-opaque"
-  | "abs", [v] => (match toInt? v with
+  | [.opaque _] => U "abs-opaque"
+  | [v] => (match toInt? v with
     | some i => ret (.dec (Dec.ofInt (if i < 0 then -i else i)) true) s
     | none => .error .typeError)
-  | "abs", _ => .error .typeError
-  | "min", [] => .error .typeError
-  | "min", [c] => (match iterItems h c with
-    | .ok items => (extreme h false items).map (·, s)
+  | _ => .error .typeError
+
+/-- FUNCTIONS['min'] -/
+def b_min (args : List Val) (s : BState) : BR :=
+  match args with
+  | [] => .error .typeError
+  | [c] => (match iterItems s.heap c with
+    | .ok items => (extreme s.heap false items).map (·, s)
     | .error e => .error e)
-  | "min", vs => (extreme h false vs).map (·, s)
-  | "max", [] => .error .typeError
-  | "max", [c] => (match iterItems h c with
-    | .ok items => (extreme h true items).map (·, s)
+  | vs => (extreme s.heap false vs).map (·, s)
+
+/-- FUNCTIONS['max'] -/
+def b_max (args : List Val) (s : BState) : BR :=
+  match args with
+  | [] => .error .typeError
+  | [c] => (match iterItems s.heap c with
+    | .ok items => (extreme s.heap true items).map (·, s)
     | .error e => .error e)
-  | "max", vs => (extreme h true vs).map (·, s)
-  | "rand", [] =>
-    -- Decimal(random.random()): m / 2^53 exactly, in lowest terms n / 2^k ↦ n·5^k E-k
-    let x := lcgNext s.rng
-    let m := x / 2 ^ 11
-    let rec red : Nat → Nat → Nat → Nat × Nat
-      | 0, n, k => (n, k)
-      | f + 1, n, k => if k > 0 ∧ n % 2 = 0 then red f (n / 2) (k - 1) else (n, k)
-    let (n, k) := if m = 0 then (0, 0) else red 53 m 53
-    ret (.dec { neg := false, coeff := n * 5 ^ k, exp := -(k : Int) } true) { s with rng := x }
-  | "rand", [.ref a] => (match h.get? a with
-    | some (.list xs) =>
-      if xs.isEmpty then .error .indexError else
-      let x := lcgNext s.rng
-      (match xs[(x / 2 ^ 33) % xs.length]? with
-       | some v => ret v { s with rng := x }
-       | none => U "rand-index")
+  | vs => (extreme s.heap true vs).map (·, s)
+
+/-- `Decimal(random.random())`: m / 2^53 exactly; in lowest terms n / 2^k ↦ n·5^k E-k -/
+def randUnit (s : BState) : BR :=
+  let x := lcgNext s.rng
+  let m := x / 2048
+  let rec red : Nat → Nat → Nat → Nat × Nat
+    | 0, n, k => (n, k)
+    | f + 1, n, k => if k > 0 ∧ n % 2 = 0 then red f (n / 2) (k - 1) else (n, k)
+  let (n, k) := if m = 0 then (0, 0) else red 53 m 53
+  ret (.dec { neg := false, coeff := n * 5 ^ k, exp := -(k : Int) } true) { s with rng := x }
+
+/-- `random.choice(xs)` -/
+def randChoice (xs : List Val) (s : BState) : BR :=
+  if xs.isEmpty then .error .indexError else
+  let x := lcgNext s.rng
+  match xs[(lcgHigh x) % xs.length]? with
+  | some v => ret v { s with rng := x }
+  | none => U "rand-index"
+
+/-- `Decimal(random.randint(lo, hi))` -/
+def randInt (lo hi : Int) (s : BState) : BR :=
+  if lo > hi then .error .valueError else
+  let x := lcgNext s.rng
+  let n : Int := lo + ((lcgHigh x) % (hi - lo + 1).toNat : Nat)
+  ret (.dec (Dec.ofInt n) true) { s with rng := x }
+
+/-- FUNCTIONS['rand'] -/
+def b_rand (args : List Val) (s : BState) : BR :=
+  match args with
+  | [] => randUnit s
+  | [.ref a] => (match s.heap.get? a with
+    | some (.list xs) => randChoice xs s
     | _ => .error (.parser "Not supported rand() params"))
-  | "rand", [a, b] =>
+  | [a, b] =>
     (match pyInt a, pyInt b with
-     | .ok lo, .ok hi =>
-       if lo > hi then .error .valueError else
-       let x := lcgNext s.rng
-       let n : Int := lo + ((x / 2 ^ 33) % (hi - lo + 1).toNat : Nat)
-       ret (.dec (Dec.ofInt n) true) { s with rng := x }
+     | .ok lo, .ok hi => randInt lo hi s
      | .error e, _ => .error e
      | _, .error e => .error e)
-  | "rand", _ => .error (.parser "Not supported rand() params")
-  | "push", [c, v] =>
-    (match checkArraySize h c with
+  | _ => .error (.parser "Not supported rand() params")
+
+/-- FUNCTIONS['push'] -/
+def b_push (args : List Val) (s : BState) : BR :=
+  match args with
+  | [c, v] =>
+    (match checkArraySize s.heap c with
      | .error e => .error e
      | .ok () => match c with
-       | .ref a => match h.get? a with
-         | some (.list xs) => ret .none { s with heap := h.set a (.list (xs ++ [v])) }
+       | .ref a => match s.heap.get? a with
+         | some (.list xs) => ret .none { s with heap := s.heap.set a (.list (xs ++ [v])) }
          | _ => .error .attributeError
        | .opaque _ => U "push-opaque"
        | _ => .error .attributeError)
-  | "push", _ => .error .typeError
-  | "pop", c :: rest =>
+  | _ => .error .typeError
+
+/-- FUNCTIONS['pop'] -/
+def b_pop (args : List Val) (s : BState) : BR :=
+  match args with
+  | c :: rest =>
     if rest.length > 1 then .error .typeError else
     (match c with
-     | .ref a => match h.get? a with
+     | .ref a => match s.heap.get? a with
        | some (.list xs) =>
          let idx : R (Option Int) := match rest with
            | [] => .ok none | [.none] => .ok none | [i] => (intArg i).map some | _ => .ok none
@@ -842,83 +1033,157 @@ def callPure (name : String) (args : List Val) (s : BState) : BR :=
             let j? := match io with | none => some (xs.length - 1) | some i => normIndex xs.length i
             match j? with
             | some j => (match xs[j]? with
-              | some v => ret v { s with heap := h.set a (.list (xs.eraseIdx j)) }
+              | some v => ret v { s with heap := s.heap.set a (.list (xs.eraseIdx j)) }
               | none => .error (.parser "pop index out of range"))
             | none => .error (.parser "pop index out of range"))
        | _ => U "pop-dict"
      | .opaque _ => U "pop-opaque"
      | _ => .error .attributeError)
-  | "pop", [] => .error .typeError
-  | "insert", [c, i, v] =>
-    (match checkArraySize h c with
+  | [] => .error .typeError
+
+/-- FUNCTIONS['insert'] -/
+def b_insert (args : List Val) (s : BState) : BR :=
+  match args with
+  | [c, i, v] =>
+    (match checkArraySize s.heap c with
      | .error e => .error e
      | .ok () => match c with
-       | .ref a => match h.get? a with
+       | .ref a => match s.heap.get? a with
          | some (.list xs) =>
            (match intArg i with
             | .error e => .error e
             | .ok k =>
               let n : Int := xs.length
               let j : Int := if k < 0 then max 0 (k + n) else min k n
-              ret .none { s with heap := h.set a (.list (xs.take j.toNat ++ v :: xs.drop j.toNat)) })
+              ret .none { s with heap := s.heap.set a (.list (xs.take j.toNat ++ v :: xs.drop j.toNat)) })
          | _ => .error .attributeError
        | .opaque _ => U "insert-opaque"
        | _ => .error .attributeError)
-  | "insert", _ => .error .typeError
-  | "remove", [c, v] =>
+  | _ => .error .typeError
+
+/-- FUNCTIONS['remove'] -/
+def b_remove (args : List Val) (s : BState) : BR :=
+  match args with
+  | [c, v] =>
     (match c with
-     | .ref a => match h.get? a with
+     | .ref a => match s.heap.get? a with
        | some (.list xs) =>
-         (match listIndexOf h xs v 0 with
+         (match listIndexOf s.heap xs v 0 with
           | .error e => .error e
           | .ok none => ret .none s
-          | .ok (some j) => ret .none { s with heap := h.set a (.list (xs.eraseIdx j)) })
+          | .ok (some j) => ret .none { s with heap := s.heap.set a (.list (xs.eraseIdx j)) })
        | some (.dict kvs) =>
          if ¬ isHashable v then .error .typeError else
-         (match dictErase h kvs v with
-          | .ok kvs' => ret .none { s with heap := h.set a (.dict kvs') }
+         (match dictErase s.heap kvs v with
+          | .ok kvs' => ret .none { s with heap := s.heap.set a (.dict kvs') }
           | .error e => .error e)
        | none => U "dangling"
      | _ => U "remove-other")
-  | "remove", _ => .error .typeError
-  | "reversed", [.str a] => ret (.str a.reverse) s
-  | "reversed", [.tuple vs] => .ok (allocList s vs.reverse)
-  | "reversed", [.ref a] => (match h.get? a with
+  | _ => .error .typeError
+
+/-- FUNCTIONS['reversed'] -/
+def b_reversed (args : List Val) (s : BState) : BR :=
+  match args with
+  | [.str a] => ret (.str a.reverse) s
+  | [.tuple vs] => .ok (allocList s vs.reverse)
+  | [.ref a] => (match s.heap.get? a with
     | some (.list xs) => .ok (allocList s xs.reverse)
     | some (.dict kvs) => .ok (allocList s (kvs.map (·.1)).reverse)
     | none => U "dangling")
-  | "reversed", [.opaque _] => U "reversed-opaque"
-  | "reversed", _ => .error .typeError
-  | "enumerate", [c] => (match iterItems h c with
+  | [.opaque _] => U "reversed-opaque"
+  | _ => .error .typeError
+
+/-- FUNCTIONS['enumerate'] -/
+def b_enumerate (args : List Val) (s : BState) : BR :=
+  match args with
+  | [c] => (match iterItems s.heap c with
     | .ok items => .ok (allocList s (items.zipIdx.map (fun (v, i) => .tuple [.int i, v])))
     | .error e => .error e)
-  | "enumerate", _ => .error .typeError
-  | "shuffle", [.ref a] => (match h.get? a with
+  | _ => .error .typeError
+
+/-- FUNCTIONS['shuffle'] -/
+def b_shuffle (args : List Val) (s : BState) : BR :=
+  match args with
+  | [.ref a] => (match s.heap.get? a with
     | some (.list xs) =>
       -- Fisher–Yates, i from len-1 down to 1, j = draw mod (i+1)
       let rec go : Nat → List Val → Nat → List Val × Nat
         | 0, l, r => (l, r)
         | i + 1, l, r =>
           let x := lcgNext r
-          let j := (x / 2 ^ 33) % (i + 2)
+          let j := (lcgHigh x) % (i + 2)
           match l[i + 1]?, l[j]? with
           | some vi, some vj => go i ((l.set (i + 1) vj).set j vi) x
           | _, _ => (l, x)
       let (ys, r') := go (xs.length - 1) xs s.rng
       .ok (allocList { s with rng := r' } ys)
     | _ => U "shuffle-dict")
-  | "shuffle", [_] => U "shuffle-other"
-  | "shuffle", _ => .error .typeError
-  | "index_of", [c, v] =>
+  | [_] => U "shuffle-other"
+  | _ => .error .typeError
+
+/-- FUNCTIONS['index_of'] -/
+def b_index_of (args : List Val) (s : BState) : BR :=
+  match args with
+  | [c, v] =>
     (match c with
-     | .ref a => match h.get? a with
-       | some (.list xs) => (listIndexOf h xs v 0).map (fun r => (match r with | some i => .int i | none => .none, s))
+     | .ref a => match s.heap.get? a with
+       | some (.list xs) => (listIndexOf s.heap xs v 0).map (fun r => (match r with | some i => .int i | none => .none, s))
        | _ => .error .attributeError
-     | .tuple vs => (listIndexOf h vs v 0).map (fun r => (match r with | some i => .int i | none => .none, s))
+     | .tuple vs => (listIndexOf s.heap vs v 0).map (fun r => (match r with | some i => .int i | none => .none, s))
      | .str _ => U "index_of-str"
      | .opaque _ => U "index_of-opaque"
      | _ => .error .attributeError)
-  | "index_of", _ => .error .typeError
-  | _, _ => U "not-a-pure-builtin"
+  | _ => .error .typeError
+
+/-- the pure (non-higher-order) entries of FUNCTIONS, dispatched by name -/
+def callPureTable : List (String × (List Val → BState → BR)) :=
+  [("len", b_len),
+   ("int", b_int),
+   ("float", b_float),
+   ("str", b_str),
+   ("dict", b_dict),
+   ("list", b_list),
+   ("startswith", b_startswith),
+   ("endswith", b_endswith),
+   ("lower", b_lower),
+   ("upper", b_upper),
+   ("strip", b_strip),
+   ("replace", b_replace),
+   ("match", b_match),
+   ("match_groups", b_match_groups),
+   ("match_all", b_match_all),
+   ("pretty", b_pretty),
+   ("keys", b_keys),
+   ("values", b_values),
+   ("items", b_items),
+   ("sum", b_sum),
+   ("get", b_get),
+   ("__getitem__", b_getitem),
+   ("__delitem__", b_delitem),
+   ("__setitem__", b_setitem),
+   ("__setitem_with_op__", b_setitem_with_op),
+   ("join", b_join),
+   ("split", b_split),
+   ("round", b_round),
+   ("floor", b_floor),
+   ("ceil", b_ceil),
+   ("abs", b_abs),
+   ("min", b_min),
+   ("max", b_max),
+   ("rand", b_rand),
+   ("push", b_push),
+   ("pop", b_pop),
+   ("insert", b_insert),
+   ("remove", b_remove),
+   ("reversed", b_reversed),
+   ("enumerate", b_enumerate),
+   ("shuffle", b_shuffle),
+   ("index_of", b_index_of)]
+
+def callPure (name : String) (args : List Val) (s : BState) : BR :=
+  if typeObjectGuard name args then U "type-object-arg" else
+  match callPureTable.find? (fun p => p.1 == name) with
+  | some p => p.2 args s
+  | none => U "not-a-pure-builtin"
 
 end Sq
